@@ -109,6 +109,8 @@ def _case(draw):
         case["wd"] = draw(st.one_of(st.none(), st.sampled_from([0.0, 90.0, 180.0, 270.0, 360.0]), gen.fl(0.0, 360.0)))
         case["wd_int"] = draw(st.booleans())
         case["on_centre"] = draw(st.integers(0, 3)) == 0  # receptor exactly on a cell centre (zero along-wind distance cells)
+        if draw(st.integers(0, 2)) == 0:
+            case["ext_frac"] = [draw(st.sampled_from([0.3, 0.7, 0.45])), draw(st.sampled_from([0.3, 0.7, 0.45]))]
         case["shift2"] = [draw(st.integers(-3, 3)), draw(st.integers(-3, 3))]  # second receptor on the same grid
     elif kind == "mass":
         case["xup_factor"] = draw(gen.fl(3.0, 12.0))
@@ -207,6 +209,11 @@ def _check_fp(case):
     e = case["ext"]
     mx, my = case["mxy"]
     dom = [mx - e[0] * res, mx + e[1] * res, my - e[2] * res, my + e[3] * res]
+    if case.get("ext_frac"):
+        # a bounding box that is not a whole number of cells wide / high (the far edges lie a fraction of a cell further out)
+        dom[1] += case["ext_frac"][0] * res
+        dom[2] -= case["ext_frac"][1] * res
+        out.label("extent-not-a-multiple-of-res")
     if case.get("on_centre"):
         # shift the grid by half a cell: cell centres now fall on the receptor's own coordinates
         dom = [v - 0.5 * res for v in dom]
@@ -255,7 +262,7 @@ def _check_fp(case):
     down = x < -1e-9 * (abs(mx) + abs(my) + res * 20)
     if np.any(ff[down] != 0):
         out.bad("non-zero footprint in downwind cells")
-    if wd is None and e[2] == e[3] and not f32 and not case.get("on_centre"):
+    if wd is None and e[2] == e[3] and not f32 and not case.get("on_centre") and not case.get("ext_frac"):
         if not np.abs(ff - ff[::-1, :]).max() <= 1e-9 * mref:
             out.bad("footprint not mirror-symmetric about the wind axis")
         out.label("symmetry-checked")
